@@ -152,6 +152,18 @@ def main(tier):
             cat = db.GetDefaultCategory(us[0])
             if not cat or qt in ("Unknown",):
                 continue
+            # validation against a category with limits, in every (sampled) unit: accepted / rejected exactly like the Scalar
+            if P.outcome(lambda: db.AddCategory("verif limited", qt, min_value=0.0, max_value=3.0, override=True))[0] == "ok":
+                for u in (us if thorough or len(us) <= 6 else [us[0]] + rng.sample(us[1:], 5)):
+                    for fv in fvals:
+                        def verdict(mk):
+                            o = P.outcome(mk)
+                            if o[0] != "ok":
+                                return o[2]
+                            return "valid" if o[1].IsValid() else "invalid"
+                        events.append({"op": "Bool", "call": "validate %r %s against limits 0..3 %s" % (fv, u, us[0]),
+                                       "a": verdict(lambda: FractionScalar("verif limited", value=fv, unit=u)),
+                                       "b": verdict(lambda: Scalar("verif limited", float(fv), u))})
             pairs = [(a, b) for a in us for b in us if a != b]
             if len(pairs) > (400 if thorough else 14):
                 pairs = rng.sample(pairs, 400 if thorough else 14)
